@@ -802,6 +802,12 @@ class Engine:
                     return
         # 4. opaque; &mut arguments pointing into tracked objects are havocked
         pure = target in self.opaque_pure or strip_generics(target) in self.opaque_pure
+        if not pure and target not in self.fx.fns and strip_all_generics(target).split("::")[-1] in PURE_OBSERVERS \
+                and not any(self.arg_is_mut(fj, t, i) for i in range(len(args))):
+            # observers of std collections: the result is a function of the receiver's current value
+            vals = [_val(self, st, a) if a[0] == "ptr" else a for a in args]
+            yield st, ("call", target, tuple(vals), None)
+            return
         rv = self.opaque(st, target, args, pure=pure)
         for i, a in enumerate(args):
             if pure:
@@ -891,6 +897,7 @@ class Engine:
 
 
 PANIC = ("panic",)
+PURE_OBSERVERS = {"len", "is_empty", "contains", "contains_key"}
 
 
 def strip_generics(p):
